@@ -79,7 +79,8 @@ def cases(rng, tier):
                     ev[j] = (ev[j] + 1) % R
                     evals, wrong = lst(ev), "wrong-evaluation"
                 if mode == 2 and i == 0:          # wrong witness (opened at another point)
-                    polys[0] = poly(rng, 2 + rng.below(max(1, keylen - 2)))   # non-constant, so the witness really differs
+                    # degree >= 2: the witness quotient of a polynomial of degree <= 1 does not depend on the opening point
+                    polys[0] = poly(rng, 3 + rng.below(max(1, keylen - 3)))
                     if polys[0][-1] == 0:
                         polys[0][-1] = 1
                     wz, wrong = (z + 1) % R, "wrong-witness"
